@@ -43,11 +43,16 @@ def render_block(body, ind, out):
         k = s[0]
         if k == "asg":
             lits = LIT[s[2]]
-            out.append(f"{pad}{s[1]} = {lits[len(out) % len(lits)]}")
+            ann = f": {s[2]}" if len(s) > 3 and s[3] else ""
+            out.append(f"{pad}{s[1]}{ann} = {lits[len(out) % len(lits)]}")
         elif k == "cpy":
-            out.append(f"{pad}{s[1]} = {s[2]}")
+            ann = f": {s[3]}" if len(s) > 3 and s[3] else ""
+            out.append(f"{pad}{s[1]}{ann} = {s[2]}")
         elif k == "rd":
-            out.append(f'{pad}result("r", {s[1]})')
+            if len(s) > 2 and s[2] == "bare":
+                out.append(f"{pad}{s[1]}")  # a bare-name expression statement is a read too
+            else:
+                out.append(f'{pad}result("r", {s[1]})')
         elif k == "pass":
             out.append(f"{pad}pass")
         elif k == "ret":
@@ -174,19 +179,23 @@ def programs(draw, literal_conds=True, dead_code=True):
         if kind == "asg":
             v = draw(st.sampled_from(names))
             recent[0] = v
-            return ["asg", v, ty_of(v)]
+            t = ty_of(v)
+            return ["asg", v, t, bool(draw(st.integers(0, 3)) == 0)]
         if kind == "cpy":
             dst = draw(st.sampled_from(names))
             src = draw(st.sampled_from(names))
             if mono and fixed[dst] != fixed[src]:
                 return ["asg", dst, fixed[dst]]
-            return ["cpy", dst, src]
+            # annotated copies (incl. `a: int = a`) only where every variable keeps one type
+            ann = fixed[dst] if (mono and draw(st.booleans())) else None
+            return ["cpy", dst, src, ann]
         if kind == "rd":
             # half of the reads look at the variable assigned last in generation order, so that
             # reads behind joins / loops hit the interesting variable often enough
+            form = "bare" if draw(st.integers(0, 3)) == 0 else "result"
             if recent[0] is not None and draw(st.booleans()):
-                return ["rd", recent[0]]
-            return ["rd", draw(st.sampled_from(names))]
+                return ["rd", recent[0], form]
+            return ["rd", draw(st.sampled_from(names)), form]
         if kind in ("pass", "ret", "brk", "cnt"):
             return [kind]
         if kind == "def":
